@@ -110,7 +110,8 @@ class UnwrapAbuseRule(BaseLintRule):
         """
         if self._config_override is not None:
             return self._config_override
-        return load_linter_config(context, "unwrap-abuse", UnwrapAbuseConfig)
+        key = "unwrap_abuse" if "unwrap_abuse" in getattr(context, "metadata", {}) else "unwrap-abuse"
+        return load_linter_config(context, key, UnwrapAbuseConfig)
 
     def _build_violations(
         self,
